@@ -685,3 +685,125 @@ pub fn panic_of(receipts: &[Receipt]) -> Option<fuel_asm::PanicReason> {
 pub fn script_result(receipts: &[Receipt]) -> Option<(u64, u64)> {
     receipts.iter().find_map(|r| match r { Receipt::ScriptResult { result, gas_used } => Some((u64::from(*result), *gas_used)), _ => None })
 }
+
+// ---------------------------------------------------------------------------------------------
+// reuse of one interpreter: "dirtying" transactions run before the measured one (streams c26 / c27; c28 reuses a client)
+
+/// contracts used only by the deep-nest dirtying transaction (ids outside the pool the generated programs use)
+pub fn dirt_contract_id(i: usize) -> ContractId { ContractId::new([0xD0 + i as u8; 32]) }
+
+fn load64(code: &mut Vec<Instruction>, r: u8, v: u64) {
+    code.push(op::movi(r, (v >> 48) as u32));
+    for k in (0..4).rev() { code.push(op::slli(r, r, 12)); code.push(op::ori(r, r, ((v >> (12 * k)) & 0xFFF) as u16)); }
+}
+
+/// `$0x19` = pointer to a fresh call structure (on the heap) for dirt contract `i`
+fn dirt_call_struct(code: &mut Vec<Instruction>, i: usize) {
+    let b = 0xD0u64 + i as u64;
+    code.push(op::movi(0x1d, 48)); code.push(op::aloc(0x1d));
+    load64(code, 0x1d, b * 0x0101_0101_0101_0101);
+    for w in 0..4 { code.push(op::sw(RegId::HP, 0x1d, w)); }
+    code.push(op::move_(0x19, RegId::HP));
+}
+
+fn dirt_assemble(body: Vec<Instruction>, base: &AssetId) -> Vec<u8> {
+    let mut code = vec![op::movi(RP, 0), op::add(RP, RP, RegId::IS)];
+    code.extend(body);
+    code[0] = op::movi(RP, (code.len() * 4) as u32);
+    let mut b: Vec<u8> = code.iter().flat_map(|i| i.to_bytes()).collect();
+    b.extend_from_slice(&pool(base));
+    b
+}
+
+/// D0 warms two storage slots, mints, forwards coins to D1; D1 writes a slot and calls D2; D2 ends the transaction
+/// `how`: 0 = RVRT, 1 = panic (division by zero), 2 = endless loop (out of gas), 3 = returns (the transaction succeeds)
+pub fn dirt_contracts(base: &AssetId, how: u64) -> Vec<Ctr> {
+    let (pk, v, fl, pb, g) = (0x1au8, 0x1bu8, 0x1cu8, 0x1eu8, 0x18u8);
+    let mut d0: Vec<Instruction> = vec![op::addi(pk, RP, OFF_SUB), op::movi(v, 77), op::sww(pk, fl, v), op::addi(pk, RP, OFF_SUB + 32), op::sww(pk, fl, v), op::srw(v, fl, pk, 0),
+        op::movi(v, 5), op::addi(pk, RP, OFF_SUB), op::mint(v, pk)];
+    dirt_call_struct(&mut d0, 1);
+    d0.extend([op::addi(pb, RP, OFF_ASSET), op::movi(v, 3), op::not(g, RegId::ZERO), op::call(0x19, v, pb, g), op::ret(RegId::ONE)]);
+    let mut d1: Vec<Instruction> = vec![op::addi(pk, RP, OFF_SUB), op::movi(v, 9), op::sww(pk, fl, v), op::movi(v, 4000), op::aloc(v)];
+    dirt_call_struct(&mut d1, 2);
+    d1.extend([op::addi(pb, RP, OFF_ASSET), op::not(g, RegId::ZERO), op::call(0x19, RegId::ZERO, pb, g), op::ret(RegId::ONE)]);
+    let d2: Vec<Instruction> = match how {
+        0 => vec![op::log(RegId::ONE, RegId::ZERO, RegId::ZERO, RegId::ZERO), op::rvrt(RegId::ONE)],
+        1 => vec![op::div(0x10, RegId::ONE, RegId::ZERO), op::ret(RegId::ONE)],
+        2 => vec![op::noop(), op::jmpb(RegId::ZERO, 0)],
+        _ => vec![op::ret(RegId::ONE)],
+    };
+    let mk = |i: usize, c: Vec<Instruction>| Ctr { id: dirt_contract_id(i), code: dirt_assemble(c, base), balances: vec![(*base, 1000)], as_input: true, tail: 0 };
+    vec![mk(0, d0), mk(1, d1), mk(2, d2)]
+}
+
+/// the contracts every dirtying variant may need, inserted next to the scenario's own
+pub fn install_dirt_contracts(st: &mut MemoryStorage, base: &AssetId) {
+    // code of D2 is replaced per variant by `dirty_vm` (the id stays)
+    for c in dirt_contracts(base, 3) {
+        st.storage_contract_insert(&c.id, c.code.as_slice()).unwrap();
+        for (a, v) in &c.balances { st.contract_asset_id_balance_insert(&c.id, a, *v).unwrap(); }
+    }
+    st.commit();
+}
+
+/// Transactions that leave state behind in the interpreter that runs them: (a) the measured program itself (warms exactly
+/// the slots / balances / frames the measured run touches), (b) another generated script over the same contracts (other
+/// outputs and index maps, other slots, often aborted inside a call), (c) a large heap plus a three-deep call chain through
+/// the dirt contracts (a different set of contract inputs) that moves coins, mints, writes slots and is ended in the innermost
+/// frame by revert / panic / out of gas / return.
+pub fn dirty_scenarios(rng: &mut Rng, scn: &Scn) -> Vec<(Scn, u64)> {
+    let base = *scn.params.base_asset_id();
+    let mut out = vec![];
+    let n = rng.range(1, 3);
+    for _ in 0..n {
+        match rng.below(4) {
+            0 => { let mut d = scn.clone(); d.gas_limit = d.gas_limit.max(200_000); out.push((d, 9)); }
+            1 => {
+                let mut d = gen_scenario(rng, Focus::Ledger, (**scn.params.gas_costs()).clone());
+                d.params = scn.params.clone(); d.gas_price = scn.gas_price; d.contracts = scn.contracts.clone(); d.blobs = vec![];
+                d.gas_limit = d.gas_limit.max(100_000);
+                if rng.chance(1, 2) { for c in d.contracts.iter_mut() { if rng.chance(1, 2) { c.as_input = !c.as_input; } } }
+                out.push((d, 9));
+            }
+            _ => {
+                let how = rng.below(4);
+                let mut d = scn.clone();
+                d.contracts = dirt_contracts(&base, how);
+                let mut s: Vec<Instruction> = vec![op::movi(0x10, *rng.pick(&[64u32, 5000, 100_000, 262_000])), op::aloc(0x10)];
+                dirt_call_struct(&mut s, 0);
+                s.extend([op::addi(0x1e, RP, OFF_ASSET), op::movi(0x1b, rng.below(3) as u32), op::not(0x18, RegId::ZERO), op::call(0x19, 0x1b, 0x1e, 0x18),
+                    op::log(RegId::ONE, RegId::ONE, RegId::ZERO, RegId::ZERO), op::ret(RegId::ONE)]);
+                d.script = dirt_assemble(s, &base);
+                d.gas_limit = if how == 2 { 30_000 } else { 2_000_000 };
+                d.coin_outs.clear(); d.blobs = vec![];
+                out.push((d, how));
+            }
+        }
+    }
+    out
+}
+
+/// Runs the dirtying transactions to completion on `vm`, settling its storage after each like `MemoryClient::transact`
+/// (revert on Revert / Panic / error, commit otherwise). Returns how many ran and how many ended inside a call.
+pub fn dirty_vm(vm: &mut Vm, dirt: &[(Scn, u64)]) -> (usize, usize) {
+    let (mut ran, mut in_call) = (0, 0);
+    for (d, how) in dirt {
+        let Ok(b) = build(d) else { continue };
+        if *how <= 3 {
+            // variant-specific innermost contract
+            let c = &d.contracts[2];
+            let st: &mut MemoryStorage = vm.as_mut();
+            let _ = st.storage_contract_insert(&c.id, c.code.as_slice());
+        }
+        vm.set_single_stepping(false);
+        let ok = match std::panic::catch_unwind(std::panic::AssertUnwindSafe(|| vm.transact(b.ready).map(|t| t.should_revert()).unwrap_or(true))) { Ok(r) => r, Err(_) => true };
+        let rs = vm.receipts();
+        let mut depth = 0i64;
+        for r in rs { match r { Receipt::Call { .. } => depth += 1, Receipt::Return { .. } | Receipt::ReturnData { .. } if depth > 0 => depth -= 1, _ => {} } }
+        if depth > 0 { in_call += 1; }
+        let st: &mut MemoryStorage = vm.as_mut();
+        if ok { st.revert(); } else { st.commit(); }
+        ran += 1;
+    }
+    (ran, in_call)
+}
